@@ -63,6 +63,10 @@ def cases(tier, seed):
       out.append({"id": f"repo{seed}_{k}_{r}", "scene": {"kind": "repo", "path": p, "opt": opt}, "seed": seed * 1000 + 61 * r + k, "nworld": 1 + (k + r) % 3, "weight": 4})
     for k, (p, opt) in enumerate([("constraints.xml", {"integrator": "RK4"}), ("collision.xml", {"integrator": "RK4"})]):
       out.append({"id": f"rk4_{seed}_{k}_{r}", "scene": {"kind": "repo", "path": p, "opt": opt}, "seed": seed * 1000 + 67 * r + k, "nworld": 1 + (k + r) % 2, "weight": 4})
+  # rows that are needed by an early forward evaluation of the step only (RK4 stages): limits / contacts that are active
+  # at t and released before t+h
+  for i in range(8 if tier == "quick" else 120):
+    out.append({"id": f"release{seed}_{i}", "scene": {"kind": "release", "jac": ("dense", "sparse")[i % 2], "integrator": ("RK4", "RK4", "RK4", "Euler")[(i // 2) % 4], "seed": seed * 100000 + 4000 + i}, "seed": seed * 100000 + 4000 + i, "nworld": 2 + i % 2, "weight": 1})
   n = 21 if tier == "quick" else 500
   for i in range(n):
     prof = ("full", "free", "joints")[i % 3]
@@ -82,21 +86,115 @@ def cases(tier, seed):
   return out
 
 
+def _release_scene(spec):
+  """Limited hinges / slides and spheres over a plane; the per-world states put some of them just inside the active
+  region of their limit / contact margin with a velocity that releases them within half a time step."""
+  import mujoco
+
+  rng = np.random.default_rng(spec["seed"])
+  h = 0.005
+  nj = int(rng.integers(2, 6))
+  ns = int(rng.integers(0, 3))
+  b = [f'<mujoco><option timestep="{h}" integrator="{spec["integrator"]}" jacobian="{spec["jac"]}" gravity="0 0 -9.81"/><worldbody>', '<geom type="plane" size="5 5 .1"/>']
+  for k in range(nj):
+    jt = "hinge" if rng.random() < 0.7 else "slide"
+    b.append(
+      f'<body pos="{k * 0.6} 2 1"><joint name="lj{k}" type="{jt}" axis="0 1 0" limited="true" range="-0.5 0.5" damping="0.1"/>'
+      f'<geom type="capsule" size="0.04 0.15" contype="0" conaffinity="0" mass="{rng.uniform(0.3, 2):.3g}"/></body>'
+    )
+  for k in range(ns):
+    b.append(f'<body pos="{k * 0.5} 0 0.1"><freejoint name="fs{k}"/><geom type="sphere" size="0.1" condim="{int(rng.choice([1, 3]))}"/></body>')
+  b.append("</worldbody></mujoco>")
+  xml = "".join(b)
+  return xml, mujoco.MjModel.from_xml_string(xml), ["xml:release", "integrator:" + spec["integrator"]]
+
+
+def _release_states(mjm, rng, nworld):
+  import mujoco
+
+  from mon import gen
+
+  h = float(mjm.opt.timestep)
+  out = []
+  for w in range(nworld):
+    st = gen.sample_state(mjm, rng, vel=0.0, quat_scale=False, applied=False)
+    q = np.array(mjm.qpos0, dtype=np.float64)
+    v = np.zeros(mjm.nv)
+    for j in range(mjm.njnt):
+      qa, da = int(mjm.jnt_qposadr[j]), int(mjm.jnt_dofadr[j])
+      if mjm.jnt_type[j] == mujoco.mjtJoint.mjJNT_FREE:
+        mode = rng.integers(3)
+        if mode == 0:  # penetrating by less than v*h/2, moving up: contact at t, none at t+h/2
+          vz = rng.uniform(0.5, 3.0)
+          q[qa + 2] = 0.1 - rng.uniform(0.05, 0.45) * vz * h
+          v[da + 2] = vz
+        elif mode == 1:  # resting / pressing
+          q[qa + 2] = 0.1 - 0.002
+        else:
+          q[qa + 2] = 0.5
+      else:
+        lo, hi = mjm.jnt_range[j]
+        mode = rng.integers(4)
+        sp = rng.uniform(0.5, 4.0)
+        if mode == 0:  # beyond the upper limit by less than sp*h/2, moving back into range
+          q[qa] = hi + rng.uniform(0.05, 0.45) * sp * h
+          v[da] = -sp
+        elif mode == 1:
+          q[qa] = lo - rng.uniform(0.05, 0.45) * sp * h
+          v[da] = sp
+        elif mode == 2:  # stays violated
+          q[qa] = hi + 0.05
+        else:
+          q[qa] = rng.uniform(lo * 0.8, hi * 0.8)
+    st["qpos"] = q.astype(np.float32)
+    st["qvel"] = v.astype(np.float32)
+    out.append(st)
+  return out
+
+
 def _scene(spec):
   import mujoco
 
+  if spec["kind"] == "release":
+    return _release_scene(spec)
   if spec["kind"] == "xml":
     mjm = mujoco.MjModel.from_xml_string(spec["xml"])
     return spec["xml"], mjm, ["xml:equality-block-boundary"]
   return scenes.scene(spec)
 
 
-def _step_obs(mjw, mjm, m, states, **caps):
+def _step_obs(mjw, mjm, m, states, spy=False, **caps):
   d = mw.make_data(mjm, m, states, **caps)
   d.overflow.zero_()
-  mjw.step(m, d)
+  calls = {"nefc": [], "nacon": []}
+  if spy:
+    # what every forward evaluation inside the step asked for (RK4 has four): the capacity a step needs is the largest
+    # request of any of them, not the one left in Data at the end
+    from mujoco_warp._src import collision_driver as _cd
+    from mujoco_warp._src import constraint as _cs
+
+    o_mc, o_col = _cs.make_constraint, _cd.collision
+
+    def mc(m_, d_, *a, **k):
+      r = o_mc(m_, d_, *a, **k)
+      calls["nefc"].append(np.array(d_.nefc.numpy()))
+      return r
+
+    def col(m_, d_, *a, **k):
+      r = o_col(m_, d_, *a, **k)
+      calls["nacon"].append(max(int(d_.nacon.numpy()[0]), int(d_.ncollision.numpy()[0])))
+      return r
+
+    _cs.make_constraint, _cd.collision = mc, col
+    try:
+      mjw.step(m, d)
+    finally:
+      _cs.make_constraint, _cd.collision = o_mc, o_col
+  else:
+    mjw.step(m, d)
   nw = d.nworld
   return d, {
+    "calls": calls,
     "obs": meta.snap_obs(d, fields=("qpos", "qvel", "qacc", "qfrc_constraint", "nefc", "ne", "nf", "nl")),
     "con": [mw.contacts(d, w) for w in range(nw)],
     "rows": [mw.efc_rows(mjm, m, d, w) for w in range(nw)],
@@ -129,27 +227,36 @@ def run_case(case):
     rec.rejected = f"put_model: {e}"[:200]
     return rec.result()
   nworld = case["nworld"]
-  states = scenes.settle_states(mjm, rng, nworld, steps=(8, 0, 25))
+  if case["scene"]["kind"] == "release":
+    states = _release_states(mjm, rng, nworld)
+  else:
+    states = scenes.settle_states(mjm, rng, nworld, steps=(8, 0, 25))
   BIG = dict(nconmax=400, njmax=600)
   if m.is_sparse:
     BIG["njmax_nnz"] = 600 * min(mjm.nv, 60)
   try:
-    d_big, A = _step_obs(mjw, mjm, m, states, **BIG)
+    d_big, A = _step_obs(mjw, mjm, m, states, spy=True, **BIG)
   except Exception as e:  # noqa
     raise
   if (A["obs"]["overflow"] & CAP_BITS).any():
     rec.inconcl("ample run itself reports a capacity overflow")
     return rec.result()
+  # per-world row request of every make_constraint call of the step (the end-of-step count is the last call's)
+  call_nefc = np.stack(A["calls"]["nefc"] + [A["nefc"]]) if A["calls"]["nefc"] else np.stack([A["nefc"]])
+  nefc_need = call_nefc.max(axis=0)
+  rec.cover("forward_evaluations_per_step", str(len(A["calls"]["nefc"])))
+  if (nefc_need > A["nefc"]).any():
+    rec.cover("worlds_needing_more_rows_in_an_early_evaluation_than_at_the_end", int((nefc_need > A["nefc"]).sum()))
   need = {
-    "naconmax": max(A["nacon"], A["ncollision"]),
-    "njmax": int(A["nefc"].max()),
+    "naconmax": max([A["nacon"], A["ncollision"]] + A["calls"]["nacon"]),
+    "njmax": int(nefc_need.max()),
   }
   if m.is_sparse:
     need["njmax_nnz"] = int(max(r.get("nnz", 0) for r in A["rows"]))
   if case.get("nvmax"):
     need["nvmax"] = int(mw.npy(d_big.nv_awake).max()) if hasattr(d_big, "nv_awake") else mjm.nv
   per_world_need = {
-    "njmax": [int(x) for x in A["nefc"]],
+    "njmax": [int(x) for x in nefc_need],
     "njmax_nnz": [int(r.get("nnz", 0)) for r in A["rows"]],
   }
   capbit = {"naconmax": BROADPHASE | NARROWPHASE | CCD | HFIELD | EPA, "njmax": NEFC, "njmax_nnz": NJMAX_NNZ, "nvmax": NVMAX}
@@ -160,7 +267,11 @@ def run_case(case):
       continue
     if nd >= 2:
       any_nontrivial = True
-    for c in _sweep(nd, rng):
+    pts = _sweep(nd, rng)
+    if cap == "njmax" and (nefc_need > A["nefc"]).any():
+      # capacities between the end-of-step count and the largest request
+      pts = sorted(set(pts) | {int(x) for x in A["nefc"]} | {int(x) + 1 for x in A["nefc"] if x + 1 < nd})
+    for c in pts:
       caps = dict(BIG)
       if cap == "naconmax":
         caps.pop("nconmax")
@@ -229,4 +340,6 @@ def requirements(agg, tier):
     for rel in ("below", "exact", "above"):
       if t.get(f"{cap}:{rel}", 0) < 5:
         unmet.append(f"fewer than 5 sweep points {cap}:{rel}")
+  if agg["cover"].get("worlds_needing_more_rows_in_an_early_evaluation_than_at_the_end", 0) < 3:
+    unmet.append("fewer than 3 worlds whose early forward evaluation (RK4 stage) needs more rows than the end of the step")
   return unmet
